@@ -252,7 +252,7 @@ class NPFacade:
         if not isinstance(x, SC): return real_np.round(x, decimals)
         if x.p.is_const():
             c = x.p.const_value()
-            return SC.lift(int(real_np.round(float(c.re))))
+            return F(int(real_np.round(float(c.re))))
         K = s.int_bound
         if K is None: raise Inconclusive('np.round on a symbolic value without an integer bound')
         C = core.CTX
@@ -261,20 +261,20 @@ class NPFacade:
             even = (k % 2 == 0)
             # half-to-even: even k owns both end points
             if C.decide_pos(lo.p, strict=not even) and C.decide_pos(hi.p, strict=not even):
-                return SC.lift(k)
+                return F(k)
         raise OutOfBound(f'np.round argument outside 0..{K}')
 
     def floor(s, x):
         if not isinstance(x, SC): return real_np.floor(x)
         if x.p.is_const():
             import math
-            return SC.lift(math.floor(x.p.const_value().re))
+            return F(math.floor(x.p.const_value().re))
         K = s.int_bound
         if K is None: raise Inconclusive('np.floor on a symbolic value without an integer bound')
         C = core.CTX
         for k in range(0, K + 1):
             if C.decide_pos((x - k).p, strict=False) and C.decide_pos((SC.lift(k + 1) - x).p, strict=True):
-                return SC.lift(k)
+                return F(k)
         raise OutOfBound(f'np.floor argument outside 0..{K}')
 
     def angle(s, z, deg=False):
